@@ -251,7 +251,18 @@ class Builtin:
         self.f = f
 
     def __call__(self, *a, **k):
-        return self.f(*a, **k)
+        try:
+            return self.f(*a, **k)
+        except TypeError as e:
+            # a call shape the stub does not provide (extra keyword, more positionals): outside the subset, not a crash
+            msg = str(e)
+            tb, depth = e.__traceback__, 0
+            while tb is not None:
+                tb, depth = tb.tb_next, depth + 1
+            if depth <= 3 and any(s in msg for s in ("unexpected keyword argument", "positional argument", "required positional",
+                                                     "required keyword-only", "multiple values for")):
+                raise Untranslatable(f"{self.name}: call shape not provided by the stub ({msg})")
+            raise
 
     def __repr__(self):
         return f"<builtin {self.name}>"
